@@ -3,7 +3,7 @@
     followed by [Print Assumptions].  Specification: Spec06.v (inscope, sp_tag, dyck / stream_ok, Appendix B).
     Models: Model06.v (capacities, duplicate-check threshold and error classes: Gen/GenElemStack.v, regenerated from
     /repo on every run). *)
-From XV Require Import Base.XDefs Gen.GenElemStack C06.Spec06 C06.Model06 C06.Proofs06a C06.Proofs06b C06.Proofs06c C06.Proofs06d C06.Proofs06e.
+From XV Require Import Base.XDefs Gen.GenElemStack C06.Spec06 C06.Model06 C06.Proofs06a C06.Proofs06b C06.Proofs06c C06.Proofs06d C06.Proofs06e C06.Proofs06f.
 From Coq Require Import Arith.
 Local Open Scope nat_scope.
 
@@ -73,9 +73,22 @@ Theorem T06_resolve_init : forall v11, SInvR v11 scan_init [].
 Proof. exact sinvr_init. Qed.
 Print Assumptions T06_resolve_init.
 Theorem T06_resolve_endtag : forall c s ds rows, nonwf c -> SInvR (c_v11 c) s (ds :: rows) ->
-  exists uri pfx loc s', st_pop c s = Ok (uri, pfx, loc, s') /\ SInvR (c_v11 c) s' rows.
+  exists uri pfx loc s', st_pop c s = Ok (uri, pfx, loc, s') /\ SInvR (c_v11 c) s' rows /\ sc_uris s' = sc_uris s.
 Proof. exact st_pop_inv. Qed.
 Print Assumptions T06_resolve_endtag.
+
+(** ... which gives the property for whole documents: for EVERY well-nested token sequence (names are NCNames), parsed
+    from the initial scanner state, the start-tag events delivered are -- in order, namespace of the element and of every
+    attribute -- exactly what the Spec demands ([sp_doc]: [inscope] of the declarations of the open elements and of the
+    tag itself), up to the first tag that violates a namespace constraint; the scan ends with an error exactly when
+    there is such a tag, and the error is a namespace error *)
+Theorem T06_resolve : forall c ts s' devs err, nonwf c -> toks_nc ts -> toks_nested ts 0 = true ->
+  scan_toks c scan_init ts = (s', devs, err) ->
+  Forall2 (start_ok (sc_uris s')) (dev_starts devs) (fst (sp_doc (c_v11 c) (map sp_tok_of ts) [])) /\
+  (snd (sp_doc (c_v11 c) (map sp_tok_of ts) []) = true <-> err <> None) /\
+  (forall e, err = Some e -> ns_error e = true).
+Proof. exact doc_resolve_init. Qed.
+Print Assumptions T06_resolve.
 
 (** the individual error cases of the property text, as literal consequences *)
 Theorem T06_resolve_error_cases : forall c s (p u : name), nonwf c -> p <> [] ->
@@ -205,4 +218,18 @@ Example T06_nonvacuous_dom :
   let chain := [mkBElem (Some ex_u) (Some ex_p) ex_a [mkBAttr (Some uri_xmlns) (Some s_xmlns) ex_p ex_u]] in
   (m_lookup_ns chain (Some ex_p), m_lookup_prefix chain ex_u, m_is_default chain (Some ex_u), m_lookup_ns chain None) =
   (Some ex_u, Some ex_p, false, None).
+Proof. vm_compute. reflexivity. Qed.
+(** the hypotheses of T06_resolve are satisfiable by a document with shadowing and un-declaration *)
+Definition ex_doc : list tok :=
+  [TStart ex_p ex_a [mkRAttr s_xmlns ex_p ex_u; mkRAttr [] s_xmlns ex_v] false;
+   TStart [] ex_a [mkRAttr [] s_xmlns []; mkRAttr s_xmlns ex_p ex_v; mkRAttr ex_p ex_q ex_u] true; TText; TEnd].
+Example T06_nonvacuous_doc_hyps : toks_nested ex_doc 0 = true /\ toks_nc ex_doc.
+Proof.
+  split; [vm_compute; reflexivity|].
+  unfold toks_nc, ex_doc, ncname_attr, ncname, ex_p, ex_q, ex_a, ex_u, ex_v, s_xmlns. cbn [ra_pfx ra_loc In].
+  repeat constructor; try (intros H; repeat (destruct H as [H|H]; [discriminate H|]); exact H); discriminate.
+Qed.
+Example T06_nonvacuous_doc :
+  sp_doc false (map sp_tok_of ex_doc) [] =
+  ([(NsIn ex_u, [NsIn uri_xmlns; NsNone]); (NsNone, [NsNone; NsIn uri_xmlns; NsIn ex_v])], false).
 Proof. vm_compute. reflexivity. Qed.
